@@ -85,7 +85,10 @@ def eval_hashseed(arg):
                 env = {"PYTHONHASHSEED": str(hs)} if hs != "random" else {"PYTHONHASHSEED": "random"}
                 out, err, stt = mypyrun.run_sub(histrun.COMMON + flags + ["--cache-dir", cdir] + targets, cwd=root, env=env, timeout=900)
                 recs = cache_records(cdir, stems)
-                outs.append({"hs": hs, "status": stt, "out": out, "err": err[-800:], "recs": {k: chash(v.hex()) for k, v in recs.items()}, "nrecs": len(recs)})
+                # the same files once more on the cache just written (every module is a cache hit): the replayed
+                # diagnostics must come out in the same order whatever the hash seed
+                wout, werr, wst = mypyrun.run_sub(histrun.COMMON + flags + ["--cache-dir", cdir] + targets, cwd=root, env=env, timeout=900)
+                outs.append({"hs": hs, "status": stt, "out": out, "err": err[-800:], "recs": {k: chash(v.hex()) for k, v in recs.items()}, "nrecs": len(recs), "warm_out": wout, "warm_status": wst})
             finally:
                 mypyrun.rmtree(cdir)
         res["runs"] = outs
@@ -232,6 +235,10 @@ def judge_hashseed(run: Run, res):
             lb = [l for l in r["out"].splitlines()]
             klass = "order" if sorted(la) == sorted(lb) else "content"
             run.report("hash-seed|stdout|%s|%s" % (klass, code_of_line(d.split(": ", 1)[-1].split(" vs ")[0].strip("'\""))), case, "stdout differs between PYTHONHASHSEED=%s and %s: %s" % (base["hs"], r["hs"], d))
+        elif (r.get("warm_status"), r.get("warm_out")) != (base.get("warm_status"), base.get("warm_out")):
+            d = first_diff(base.get("warm_out") or "", r.get("warm_out") or "")
+            klass = "order" if sorted((base.get("warm_out") or "").splitlines()) == sorted((r.get("warm_out") or "").splitlines()) else "content"
+            run.report("hash-seed|warm-stdout|%s" % klass, case, "stdout of an all-cache-hit run differs between PYTHONHASHSEED=%s and %s: %s" % (base["hs"], r["hs"], d))
         elif r["recs"] != base["recs"]:
             diff = sorted(k for k in set(r["recs"]) | set(base["recs"]) if r["recs"].get(k) != base["recs"].get(k))
             kind = "data" if any(".data." in k for k in diff) else ("meta_ex" if any("meta_ex" in k for k in diff) else "meta")
@@ -326,7 +333,7 @@ def run(run: Run) -> None:
     from hypothesis import given, settings, strategies as st, HealthCheck
 
     run.rule = (
-        "(i) G2 projects (4-9 modules) checked in fresh processes under PYTHONHASHSEED in {0,1,2,random}: stdout bytes, data/meta_ex record bytes (fs store, binary or JSON) and JSON meta records without mtimes must coincide; "
+        "(i) G2 projects (4-9 modules) checked in fresh processes under PYTHONHASHSEED in {0,1,2,random}: stdout bytes, data/meta_ex record bytes (fs store, binary or JSON) and JSON meta records without mtimes must coincide, and so must the stdout of a second, all-cache-hit run on the cache just written; "
         "(ii) acyclic G2 projects: original, reversed and random permutations of the file arguments -> same set of diagnostics and exit status; "
         "(iii) in one interpreter a generated sequence of 3-8 unrelated builds (corpus programs with/without their flags, other projects, a build stopped by blockers, an in-process dmypy Server used once) then the project via mypy.api.run == fresh process. "
         "(iv) programs of the repository's check-test corpus (real typeshed, their own flags) in fresh processes under 3 (thorough: 5) hash seeds: identical stdout and exit status. "
